@@ -744,7 +744,130 @@ func mentionsArrays(t *smt.Term) bool {
 	return rec(t)
 }
 
+// batchDischarge returns the obligations that still need individual treatment.
+func (e *Engine) batchDischarge(obs []*Obligation, opts DischargeOpts) []*Obligation {
+	c := e.C
+	groups := map[string][]*Obligation{}
+	var order []string
+	for _, ob := range obs {
+		switch ob.Kind {
+		case "ensures", "frame", "invariant-init", "invariant-preserve":
+		default:
+			continue
+		}
+		key := ob.Fn + "|" + ob.Kind[:3] + "|" + strings.Join(ob.Path, ",")
+		if _, ok := groups[key]; !ok {
+			order = append(order, key)
+		}
+		groups[key] = append(groups[key], ob)
+	}
+	type bjob struct {
+		obs    []*Obligation
+		script string
+	}
+	var jobs []*bjob
+	for _, key := range order {
+		g := groups[key]
+		if len(g) < 3 {
+			continue
+		}
+		// skip groups that contain store-chain goals (they need case splitting)
+		hard := false
+		var disj []*smt.Term
+		var sk []*smt.Term
+		var extra []*smt.Term
+		var live []*smt.Term
+		for _, ob := range g {
+			var subs []subgoal
+			e.splitGoal(ob.Goal, nil, &subs, &sk)
+			for _, sg := range subs {
+				if smt.Size(sg.goal) > 4000 {
+					hard = true
+				}
+				disj = append(disj, c.And(append(append([]*smt.Term(nil), sg.hyps...), c.Not(sg.goal))...))
+				extra = append(extra, sg.hyps...)
+				extra = append(extra, sg.goal)
+			}
+			live = append(live, ob.LiveArrs...)
+		}
+		if hard || len(disj) == 0 {
+			continue
+		}
+		neg := c.Or(disj...)
+		var hy0 []*smt.Term
+		seenH := map[*smt.Term]bool{}
+		for _, h := range g[0].Hyps {
+			var parts []*smt.Term
+			e.splitHyp(h, &parts)
+			for _, p := range parts {
+				if !seenH[p] {
+					seenH[p] = true
+					hy0 = append(hy0, p)
+				}
+			}
+		}
+		hy0 = e.relevant(hy0, neg, extra, live)
+		hy0, goal := e.propagate(hy0, c.Not(neg))
+		hy := e.instantiate(hy0, goal, sk)
+		asserts := append(append([]*smt.Term(nil), hy...), c.Not(goal))
+		asserts = append(asserts, e.literalAxioms(asserts)...)
+		asserts = append(asserts, e.sentinelAxioms(asserts)...)
+		jobs = append(jobs, &bjob{obs: g, script: c.Script("ALL", asserts, nil, false)})
+	}
+	if len(jobs) == 0 {
+		return obs
+	}
+	done := map[*Obligation]bool{}
+	var mu sync.Mutex
+	var wg sync.WaitGroup
+	ch := make(chan *bjob)
+	n := opts.Jobs
+	if n <= 0 {
+		n = 8
+	}
+	tmo := opts.TimeoutS
+	if tmo <= 0 {
+		tmo = 10
+	}
+	for w := 0; w < n; w++ {
+		wg.Add(1)
+		go func() {
+			defer wg.Done()
+			for j := range ch {
+				r := smt.Solve(j.script, smt.DefaultSolvers(tmo), time.Duration(tmo)*time.Second, opts.NeedAgree)
+				if r.Status == "unsat" {
+					mu.Lock()
+					for _, ob := range j.obs {
+						ob.Status = "discharged"
+						rr := r
+						rr.Seconds = r.Seconds / float64(len(j.obs))
+						rr.Solver = r.Solver + " (batched with the other obligations of the same path)"
+						ob.Result = &rr
+						done[ob] = true
+					}
+					mu.Unlock()
+				}
+			}
+		}()
+	}
+	for _, j := range jobs {
+		ch <- j
+	}
+	close(ch)
+	wg.Wait()
+	e.Stats["batched-groups"] += len(jobs)
+	e.Stats["batched-discharged"] += len(done)
+	var rest []*Obligation
+	for _, ob := range obs {
+		if !done[ob] {
+			rest = append(rest, ob)
+		}
+	}
+	return rest
+}
+
 type DischargeOpts struct {
+	NoBatch   bool
 	TimeoutS  int
 	NeedAgree int
 	Jobs      int
@@ -927,6 +1050,13 @@ func (e *Engine) Discharge(obs []*Obligation, opts DischargeOpts) {
 		nsub   int
 		idx    int
 	}
+	// Batch pass: obligations raised at the same point of the same path (typically the
+	// ensures clauses and frame conditions at one return) share their hypotheses; they
+	// are first tried together in one query (hyps and not(g1 and ... and gn)). Only if
+	// that is not answered unsat are they discharged one by one below.
+	if !opts.NoBatch {
+		obs = e.batchDischarge(obs, opts)
+	}
 	// scripts are built sequentially (the term context is not thread-safe)
 	var jobs []*job
 	scriptsOf := map[*Obligation][]string{}
@@ -952,6 +1082,19 @@ func (e *Engine) Discharge(obs []*Obligation, opts DischargeOpts) {
 			}
 			if os.Getenv("GVC_DEBUG") != "" && strings.Contains(ob.Name, os.Getenv("GVC_DEBUG")) {
 				fmt.Fprintf(os.Stderr, "DEBUG %s #%d goal before: %s\n", ob.Name, ob.Ord, e.C.Show(sg.goal))
+			}
+			if w := os.Getenv("GVC_DEBUG_HYP"); w != "" && os.Getenv("GVC_DEBUG") != "" && strings.Contains(ob.Name, os.Getenv("GVC_DEBUG")) {
+				for _, h := range hy0 {
+					hit := false
+					for _, v := range smt.FreeVars(h) {
+						if strings.Contains(v.Name, w) {
+							hit = true
+						}
+					}
+					if hit {
+						fmt.Fprintf(os.Stderr, "HYP-BEFORE %s #%d: %s\n", ob.Name, ob.Ord, e.C.Show(h))
+					}
+				}
 			}
 			hy0 = e.relevant(hy0, sg.goal, sg.hyps, ob.LiveArrs)
 			hy0, sg.goal = e.propagate(hy0, sg.goal)
